@@ -356,7 +356,7 @@ func (in *Interp) lookup(instr *ssa.Lookup, x, idx value) value {
 		}
 		return v
 	case Str:
-		i := in.index(idx, len(x.b))
+		i := in.index(idx, len(x.b), instr.Index.Type())
 		return x.b[i]
 	}
 	panic(engineError{fmt.Sprintf("lookup on %T", x)})
